@@ -38,6 +38,79 @@ def subtree_cases(ctx, ntrees):
     return cases
 
 
+def incomplete_cases(ctx, ntrees):
+    """Subtree selections on an INTERRUPTED version (its listing is stitched with the version below): the second tree has
+    lost the entries that sort LAST in some directories, or whole directories, and the second backup is killed at several points."""
+    cases = []
+    for t in range(ntrees):
+        t0 = gen.rand_tree(ctx.rng, depth=ctx.rng.choice([2, 3]), fanout=4, neg_frac=False, owners=False, symlinks=False)
+        c = t0["c"]
+        for name in ["a", "ab", "gone"]:
+            c[name] = {"k": "d", "mode": 0o755, "mtime": 10**18, "c": {
+                "f": {"k": "f", "data": "6162", "mode": 0o644, "mtime": 10**18 + 5},
+                "sub": {"k": "d", "mode": 0o700, "mtime": 10**18, "c": {"deep": {"k": "f", "data": "64", "mode": 0o600, "mtime": 10**18 + 6}}},
+                "y": {"k": "f", "data": "79", "mode": 0o600, "mtime": 10**18 + 7}}}
+        t1 = json.loads(json.dumps(t0))
+        del t1["c"]["gone"]
+        del t1["c"]["a"]["c"]["y"]
+        del t1["c"]["a"]["c"]["sub"]
+        t1["c"]["a"]["c"]["f"] = {"k": "f", "data": "6e6577", "mode": 0o644, "mtime": 10**18 + 50}
+        opts = {"meph": ctx.rng.choice([1, 2, 3]), "mbs": 64, "sfc": ctx.rng.choice([0, 16])}
+        dirs = sorted({p for tr in (t0, t1) for p, n in gen.tree_paths(tr) if n["k"] == "d"})
+        for crash in ctx.rng.sample(range(14, 70), 4):
+            steps = [{"op": "init"}, {"op": "mktree", "path": "src", "tree": t0}, {"op": "backup", "opts": opts},
+                     {"op": "mktree", "path": "src", "tree": t1}, {"op": "backup", "opts": opts, "plan": {"crash": crash}},
+                     {"op": "list", "band": 1}, {"op": "restore", "band": 1, "dest": "full"}]
+            kinds = []
+            for s_ in dirs:
+                steps.append({"op": "list", "band": 1, "subtree": s_})
+                kinds.append(("list", s_))
+            for k, s_ in enumerate(dirs[:6]):
+                steps.append({"op": "restore", "band": 1, "subtree": s_, "dest": f"sub{k}"})
+                kinds.append(("restore", s_))
+            cases.append({"id": f"i{t}_{crash}", "tree": t1, "opts": opts, "kinds": kinds, "steps": steps})
+    return cases
+
+
+def check_incomplete_case(ctx, c, r):
+    if r is None:
+        ctx.oracle_fail("subtree/harness-died", "harness died or hung", {"case": c})
+        return
+    full_list, full_restore = r[5], r[6]
+    if full_list.get("result") != "ok":
+        ctx.dist("incomplete_version_not_listable")       # killed before its head existed
+        return
+    full = full_list["value"]
+    full_tree = full_restore.get("tree")
+    for (kind, s), res in zip(c["kinds"], r[7:]):
+        ctx.count()
+        if kind == "list":
+            got = [e["apath"] for e in (res.get("value") or [])]
+            exp = [e["apath"] for e in full if gen.comp_prefix(s, e["apath"])]
+            if res.get("result") != "ok" or got != exp:
+                ctx.oracle_fail("subtree/list-exact-incomplete-version", f"listing subtree {s!r} of an interrupted version gives {got[:10]} but exactly {exp[:10]} "
+                                f"of its whole listing lie under it", {"steps": c["steps"], "subtree": s})
+                return
+        elif res.get("tree") is not None and full_tree is not None and not res.get("monitor_errors") and not full_restore.get("monitor_errors"):
+            # a directory that has no entry of its own in the stitched listing is made on the way to its files: its time is 'now'
+            listed = {e["apath"] for e in full}
+
+            def norm(node, p):
+                if node is None or node.get("k") != "d":
+                    return node
+                n2 = dict(node)
+                if (p or "/") not in listed:
+                    n2.pop("mtime", None)
+                n2["c"] = {k: norm(v, p + "/" + k) for k, v in (node.get("c") or {}).items()}
+                return n2
+            if node_at(norm(res.get("tree"), ""), s) != node_at(norm(full_tree, ""), s):
+                ctx.oracle_fail("subtree/restore-identical-incomplete-version", f"restoring only {s!r} of an interrupted version differs from the same part of its full restore",
+                                {"steps": c["steps"], "subtree": s})
+                return
+    ctx.nontrivial("incomplete:" + c["id"])
+    ctx.dist("incomplete_version_selections", len(c["kinds"]))
+
+
 def node_at(tree, apath):
     node = tree
     if apath == "/":
@@ -133,6 +206,10 @@ def run(ctx):
     res = ctx.cvh_run(cases)
     for c in cases:
         check_subtree_case(ctx, c, res.get(c["id"]))
+    icases = incomplete_cases(ctx, 3 if quick else 40)
+    ires = ctx.cvh_run(icases)
+    for c in icases:
+        check_incomplete_case(ctx, c, ires.get(c["id"]))
     if cases:
         ctx.sample({"tree_paths": [p for p, _ in gen.tree_paths(cases[0]["tree"])][:14], "subtrees_tried": len(cases[0]["kinds"])})
     ctx.assumptions += ["restoring a single nested FILE by path is left out, as the property states",
